@@ -207,12 +207,13 @@ impl Item {
         } else {
             match item {
                 Item::List { items } => {
+                    // depth-first point index of the next element of this list
+                    let mut next_idx = depth + 1;
                     for i in 0..items.size() {
-                        depth += 1;
-                        let next = Item::contains(items.get(i).unwrap(), pattern, depth);
+                        let next = Item::contains(items.get(i).unwrap(), pattern, next_idx);
                         match next {
                             Ok(pattern_idx) => return Ok(pattern_idx),
-                            Err(()) => (),
+                            Err(()) => next_idx += Item::size(items.get(i).unwrap()),
                         }
                     }
                 }
